@@ -79,6 +79,7 @@ let trace_main ?(emit = 0) ?(skip = 0) file =
   (try while true do
       let line = input_line ic in
       match String.split_on_char ' ' line with
+      | ["END"; k] -> Printf.printf "TRACE-END %s\n" k
       | ["H"; bits] -> flush_hist (); cur_bits := bits; incr hists; st := new_message (cz bits)
       | "S" :: _ ->
         incr steps;
@@ -154,6 +155,8 @@ let () =
   let n = ref 0 and bad = ref 0 and decs = ref 0 in
   (try while true do
       let line = input_line ic in
+      if String.length line >= 4 && String.sub line 0 4 = "END " then begin
+        Printf.printf "CASES-END %s\n" (String.sub line 4 (String.length line - 4)); raise End_of_file end;
       incr n;
       let line, hist = match Str.bounded_split_delim (Str.regexp_string " # ") line 2 with
         | [a; b] -> a, b | _ -> line, "" in
